@@ -76,6 +76,7 @@ type Conn struct {
 	RespConsumed  int
 	Produced      int // response bytes produced by the server on this connection
 	ReadMark      int // bytes the reader had consumed when it last asked for more
+	Marks         [][2]uint64 // (ReadMark, scheduler step) history
 }
 
 type timeoutErr struct{}
@@ -155,6 +156,7 @@ func (c *Conn) Read(p []byte) (int, error) {
 	if c.ReadBytes > c.ReadMark {
 		// the reader asks for more: everything it had read has been processed
 		c.ReadMark = c.ReadBytes
+		c.Marks = append(c.Marks, [2]uint64{uint64(c.ReadBytes), c.env.Step})
 	}
 	if f := c.fault("read"); f != nil {
 		c.mu.Unlock()
